@@ -97,9 +97,25 @@ class Stack(Sequence[T]):
 
     def drop_snapshot(self) -> None:
         """Drop the last snapshot."""
+        if not self.lengths:
+            return
+
+        item_count, remained_count = self.lengths.pop()
+        # The dropped snapshot owns the last `dropped` entries of `popped`.
+        dropped = item_count - remained_count
+        keep = 0
+
         if self.lengths:
-            item_count, remained_count = self.lengths.pop()
-            del self.popped[item_count - remained_count :]
+            # Items of the enclosing snapshot that were popped since the dropped
+            # one was taken still have to be restorable: hand them over. They
+            # are the lowest positions, i.e. the most recently popped entries.
+            outer_count, outer_remained = self.lengths[-1]
+            if remained_count < outer_remained:
+                keep = outer_remained - remained_count
+                self.lengths[-1] = (outer_count, remained_count)
+
+        size = len(self.popped)
+        del self.popped[size - dropped : size - keep]
 
     def restore(self) -> None:
         """Rewind the stack to the most recent snapshot.
